@@ -49,7 +49,7 @@ class C02(Prop):
             elif idx >= 1 and not task["cfg"].get("clock"):
                 t = dict(task)
                 t["kind"] = "xhist_after"
-                t["first_cfgs"] = [cfgs[0] if task["tier"] == "quick" else cfgs[idx - 1]]
+                t["first_cfgs"] = [cfgs[idx - 1]] if (task["tier"] != "quick" or idx == 1) else [cfgs[0], cfgs[idx - 1]]
                 out.append(t)
         return out
 
